@@ -67,7 +67,7 @@ SHAPES = ["single", "last", "full", "two", "interior", "sublayer", "sublayer-las
 def gen_scenario(rng, shape, kinds=("put", "get", "rem", "uput"), nthreads=2, ops_per_thread=2, scans=False):
     keys = shape_keys(rng, shape)
     st = b"s"
-    setup = [(k, b"i" + k[-1:]) for k in keys]
+    setup = [(k, b"i" + k[-1:] + b"y" * (i % 3)) for i, k in enumerate(keys)]
     # hot keys: existing ones, neighbours (new keys landing in the same node), same-key races
     pool = list(keys[:4]) + list(keys[-2:])
     if keys:
@@ -89,7 +89,7 @@ def gen_scenario(rng, shape, kinds=("put", "get", "rem", "uput"), nthreads=2, op
                 kind = "scan"
             if kind in ("put", "uput"):
                 vcount += 1
-                v = b"t%d_%d" % (t, j)
+                v = b"t%d_%d" % (t, j) + b"x" * rng.choice([0, 0, 3, 9, 40])
                 ops.append("%s %s %s %s 1 0" % (kind, hx(st), hx(k), hx(v)))
             elif kind == "scan":
                 mode = rng.random()
